@@ -16,10 +16,14 @@ pub fn get_conflict_watch_key(change: &Change) -> String {
 }
 impl Database {
     pub fn list_conflicts_keys(&self, key: &String) -> Vec<String> {
-        let pendding_conflict = self.list_keys(
-            &String::from(format!("{prefix}_{key}", key = key, prefix = CONFLICTS_KEY)),
-            true,
-        );
+        // Conflict keys are "$conflicts_<key>_<opp id>": match the key name with its delimiter as
+        // a prefix, so that a pending conflict on "ab" is not taken for one on "a"
+        let pattern = if key.is_empty() {
+            format!("{prefix}_*", prefix = CONFLICTS_KEY)
+        } else {
+            format!("{prefix}_{key}_*", key = key, prefix = CONFLICTS_KEY)
+        };
+        let pendding_conflict = self.list_keys(&pattern, true);
         pendding_conflict
     }
     // Separate local conflict with replication conflict
